@@ -468,6 +468,19 @@ def st_paths(draw):
 
 def prop_multiline(case):
     lines, gid, kind = case["lines"], case["group"], case["kind"]
+    if case.get("conflict"):
+        # two lines of the group give the same tag different values: there is no union of the two
+        # definitions, the document is refused (whatever the values, whatever the order)
+        text = [G.Rec.from_plain(l, "gfa2").text() for l in lines]
+        try:
+            g = gfapy.Gfa(text, version="gfa2", vlevel=1)
+        except GfapyError:
+            return {"nt": True, "conflict": True, "kind": kind}
+        except Exception as e:
+            raise Violation("foreign", "%s: %s\n%s" % (type(e).__name__, str(e)[:200], "\n".join(text)), type(e).__name__)
+        grp = [str(x) for x in (g.sets if kind == "U" else g.paths) if str(x.name) == gid]
+        raise Violation("contradiction-accepted", "two lines of group %s define tag %s differently and the document is accepted; the group is now %s\n%s" % (
+            gid, case["conflict"], grp, "\n".join(text)), "falsy" if case.get("falsy") else "-")
     g, text = load(lines)
     ctx = "%s group %s\n%s" % (kind, gid, "\n".join(text))
     parts = [l for l in lines if l[0] == kind and l[1][0] == gid]
@@ -523,7 +536,8 @@ def st_multiline(draw):
     kind = gen.choice(r, "UO")
     gid = "grp"
     pool = segs + enames
-    tagpool = [["xx", "i", "5"], ["ab", "Z", "hello"], ["X1", "A", "q"], ["zz", "J", "[1]"], ["cn", "f", "1.5"]]
+    tagpool = [["xx", "i", gen.choice(r, ["5", "0", "-1"])], ["ab", "Z", "hello"], ["X1", "A", gen.choice(r, ["q", "0"])],
+               ["zz", "J", gen.choice(r, ["[1]", "[]", "{}"])], ["cn", "f", gen.choice(r, ["1.5", "0.0", "0"])], ["bq", "B", "c,0"]]
     r.shuffle(tagpool)
     k = r.randint(1, 4)
     for i in range(k):
@@ -548,7 +562,21 @@ def st_multiline(draw):
         out.insert(r.randint(0, len(out)), None)
     it = iter(grp)
     out = [next(it) if x is None else x for x in out]
-    return {"lines": out, "group": gid, "kind": kind}
+    conflict = falsy = None
+    grp_lines = [l for l in out if l[0] == kind]
+    tagged = [(i, t) for i, l in enumerate(grp_lines) for t in l[2]]
+    if len(grp_lines) >= 2 and tagged and gen.chance(r, 0.25):
+        # another line of the group defines one of the tags differently
+        i, t = gen.choice(r, tagged)
+        other = gen.choice(r, [j for j in range(len(grp_lines)) if j != i])
+        alt = {"i": ["0", "7", "5"], "Z": ["other", "0"], "A": ["0", "z"], "J": ["[]", "{}", "[2]", "0"], "f": ["0.0", "2.5", "0"], "B": ["c,1", "c,0,0"]}[t[1]]
+        alt = [v for v in alt if G.canon_tag_value(t[1], v) != G.canon_tag_value(t[1], t[2]) and G.accepts(t[1], v)]
+        if alt and not any(x[0] == t[0] for x in grp_lines[other][2]):
+            v = gen.choice(r, alt)
+            grp_lines[other][2].append([t[0], t[1], v])
+            conflict = t[0]
+            falsy = any(x in ("0", "0.0", "[]", "{}") for x in (v, t[2]))
+    return {"lines": out, "group": gid, "kind": kind, "conflict": conflict, "falsy": falsy}
 
 
 # ---------------------------------------------------------------- induced sets
